@@ -90,8 +90,19 @@ def run_property(prop):
         return r, desc, rep
 
     from concurrent.futures import ThreadPoolExecutor
-    with ThreadPoolExecutor(max_workers=3) as ex:
-        replayed = list(ex.map(do_replay, to_replay))
+    # replays run in batches of three; once a batch has reproduced a counterexample that is not a listed known
+    # finding the verdict (exit 1) is settled, so the remaining counterexamples are listed but not replayed
+    # (a change that breaks many harnesses at once otherwise turns a 2-minute check into a 15-minute one)
+    replayed = []
+    pending = list(to_replay)
+    while pending:
+        batch, pending = pending[:3], pending[3:]
+        with ThreadPoolExecutor(max_workers=3) as ex:
+            done = list(ex.map(do_replay, batch))
+        replayed += done
+        if any(rep["reproduced"] and not match_known(prop, r.name, r.failed_checks) for r, _d, rep in done):
+            not_replayed = pending + not_replayed
+            pending = []
     for r, desc, rep in replayed:
         path = rep.get("path") or os.path.join(replay_dir, "%s.playback.txt" % r.name.replace("::", "__"))
         if not rep["reproduced"]:
